@@ -98,6 +98,25 @@ def judge(case):
         err = render_ok(third, {tuple(before) + ('tail', 'more')})
         if err:
             bad('render-after-append', err)
+        # a (deep) copy of a comment is a comment: it renders the same text, before and after extension
+        import copy  # pylint: disable=import-outside-toplevel
+        for how in ('deepcopy', 'copy', 'deepcopy-in-container'):
+            src_c = Comment(R.build(enc, TextBlock))
+            if how == 'deepcopy':
+                dup = copy.deepcopy(src_c)
+            elif how == 'copy':
+                dup = copy.copy(src_c)
+            else:
+                dup = copy.deepcopy({'k': [src_c]})['k'][0]
+            if str(dup) != str(src_c):
+                bad(f'{how}-renders-differently', f'{str(dup)!r} vs {str(src_c)!r}')
+            if how != 'copy':
+                dup.append('extra')
+                err = render_ok(str(dup), {tuple(before) + ('extra',)})
+                if err:
+                    bad(f'{how}-extended-renders-wrong', err)
+                if list(src_c.lines) != before:
+                    bad(f'{how}-shares-lines-with-original', f'{src_c.lines!r}')
         # render, change the comment through every mutator, render again: the new text must show
         for how in ('trim', 'lines-setter', 'lines-extend', 'iadd', 'set_indentor'):
             cm2 = Comment(R.build(enc, TextBlock))
